@@ -438,3 +438,65 @@ Proof.
       intros g0 c0 Hg0 Hc0. apply H; [exact Hg0|now right]. }
     unfold insert_block. rewrite E. destruct before; reflexivity.
 Qed.
+
+(* ================================================================ exact extrapolation over Q *)
+Open Scope Q_scope.
+
+(* quotient of (x * t(x) - x0 * t(x0)) by (x - x0): synthetic (Horner) division *)
+Fixpoint pquot (t : list Q) (x0 : Q) : list Q :=
+  match t with [] => [] | b :: t' => peval t x0 :: pquot t' x0 end.
+
+Lemma pquot_length t x0 : length (pquot t x0) = length t.
+Proof. induction t as [|b t IH]; cbn [pquot length]; [reflexivity|now rewrite IH]. Qed.
+
+Lemma pquot_spec t x0 x : x * peval t x - x0 * peval t x0 == (x - x0) * peval (pquot t x0) x.
+Proof.
+  induction t as [|b t IH]; cbn [pquot peval]; [ring|].
+  set (E := peval t x) in *. set (E0 := peval t x0) in *. set (Q' := peval (pquot t x0) x) in *.
+  transitivity ((x - x0) * (b + x0 * E0) + x * ((x - x0) * Q')); [|ring].
+  rewrite <- IH. ring.
+Qed.
+
+Lemma pdiv_spec c x0 x : peval c x == peval c x0 + (x - x0) * peval (pquot (tl c) x0) x.
+Proof.
+  destruct c as [|a t]; cbn [tl peval pquot]; [ring|].
+  rewrite <- pquot_spec. ring.
+Qed.
+
+Lemma extrap_exact_n : forall n d c, length d = n -> (length c <= n)%nat -> distinctQ (map fst d) ->
+  Forall (fun xy => snd xy == peval c (fst xy)) d -> extrap n d == peval c 0.
+Proof.
+  induction n as [|n IH]; intros d c Hn Hlen Hd Hy.
+  - destruct c; [|cbn in Hlen; lia]. destruct d; reflexivity.
+  - destruct d as [|[x0 y0] rest]; [discriminate|]. cbn [length] in Hn. injection Hn as Hn.
+    cbn [extrap].
+    set (q := pquot (tl c) x0).
+    set (d' := map (fun xy : Q * Q => (fst xy, (snd xy - y0) / (fst xy - x0))) rest).
+    cbn [map distinctQ fst] in Hd. destruct Hd as [Hne Hd].
+    inversion Hy as [|? ? Hy0 Hyr]; subst. cbn [fst snd] in Hy0.
+    assert (Hfst : map fst d' = map fst rest).
+    { subst d'. rewrite map_map. apply map_ext. reflexivity. }
+    assert (IH' : extrap (length rest) d' == peval q 0).
+    { apply (IH d' q).
+      - subst d'. apply map_length.
+      - subst q. rewrite pquot_length. destruct c; cbn [tl length] in *; lia.
+      - now rewrite Hfst.
+      - subst d'. apply Forall_forall. intros xy' Hin.
+        apply in_map_iff in Hin as [[xi yi] [<- Hin]]. cbn [fst snd].
+        rewrite Forall_forall in Hyr, Hne.
+        assert (Hyi := Hyr _ Hin). cbn [fst snd] in Hyi.
+        assert (Hxi : ~ xi == x0).
+        { apply Hne. apply in_map_iff. exists (xi, yi). split; [reflexivity|exact Hin]. }
+        assert (Hnz : ~ xi - x0 == 0).
+        { intros H0. apply Hxi. rewrite <- (Qplus_0_l x0), <- H0. ring. }
+        rewrite Hyi, Hy0, (pdiv_spec c x0 xi). fold q. field. exact Hnz. }
+    rewrite IH', Hy0, (pdiv_spec c x0 0). fold q. ring.
+Qed.
+
+Lemma extrap_exact : forall d c, (length c <= length d)%nat -> distinctQ (map fst d) ->
+  Forall (fun xy => snd xy == peval c (fst xy)) d -> richardson d == peval c 0.
+Proof. intros d c. unfold richardson. now apply extrap_exact_n. Qed.
+
+(* the polynomial value convention: peval c 0 is the constant coefficient *)
+Lemma peval_0 a t : peval (a :: t) 0 == a.
+Proof. cbn [peval]. ring. Qed.
